@@ -152,3 +152,10 @@ package types
 //@ func (r *ContentRouter) GetRoute
 //@ trusted
 //@ may_panic
+
+// C04: round-2 data reaches the handler only with a non-zero member id and with EVERY encrypted share of the exact
+// 48-byte form - any slot, not just the last: a malformed share that is stored cannot be decrypted by its recipient, whose
+// complaint then fails and who is blamed in the dealer's place.
+//@ func (r Round2Info) Validate
+//@ ensures err == nil ==> r.MemberID != 0 && (forall j :: 0 <= j && j < len(r.EncryptedSecretShares) ==> len(r.EncryptedSecretShares[j]) == 48)
+//@ loop 0: invariant forall j :: 0 <= j && j < #i ==> len(r.EncryptedSecretShares[j]) == 48
